@@ -14,6 +14,7 @@
 (*   A  argument family  every call x every descriptor encoding x 4 shapes *)
 (*   N  name family    names that look like something else (" (deleted)",  *)
 (*      "..b") in the string, the cwd, the descriptor's directory, aliases *)
+(*   L  link family    every link of every forest, last and in the middle  *)
 (*   M  memory family  representative calls x every placement of the       *)
 (*      string relative to a page boundary x short/long string             *)
 (***************************************************************************)
@@ -159,8 +160,15 @@ NCases ==
        DK(k, d), WithPre(NShapes[s], x, d), DK(k, ((d - 5) % 3) + 6), NShapes[(s % 7) + 1]) :
       f \in {1}, c \in {1, 4}, sc \in NameSys, k \in {1, 4}, d \in 6..8, s \in 1..7, x \in {0, 6} }
 
+\* ---- L: every link of every forest as final and as intermediate component (followed by a name, by "..")
+LinksOf(F) == { q \in DOMAIN F : F[q].t = "link" }
+LCases ==
+  UNION { LET F == Forest(f) IN
+          { Mk("L", f, R, sc, 0, {}, DK(1, 1), PS(TRUE, q \o x, FALSE), NoD, NoP) :
+              q \in LinksOf(F), x \in {<<>>, <<"a">>, <<"..">>}, sc \in {"stat", "openat"} } : f \in 1..NF }
+
 Cases == WAll3 \o (IF Rest THEN WSel \o SetToSeq(KCases) \o SetToSeq(ACases) \o SetToSeq(MCases)
-                                \o SetToSeq(NCases) ELSE <<>>)
+                                \o SetToSeq(NCases) \o SetToSeq(LCases) ELSE <<>>)
 
 Forests == [ i \in 1..NF |-> [id |-> i,
                nodes |-> SetToSeq({ [p |-> p, t |-> Forest(i)[p].t, abs |-> Forest(i)[p].abs, tgt |-> Forest(i)[p].tgt] :
